@@ -10,18 +10,24 @@ Ltac inv H := inversion H; subst; clear H.
 (* the program counters at which a thread can be blocked *)
 Definition blocked (g : gst) (l : local) : bool :=
   match l_pc l with
-  | PRecvPark x _ => negb (readable g x)
+  | PRecvPark x _ => negb (wakeable g x)
   | PIEvWait => negb (readable g CI)
   | PJoinWait => match g_ist g with IExited => false | _ => true end
   | PIdle | PIDone => true
   | _ => false
   end.
 
+Lemma readable_wakeable : forall g x, readable g x = true -> wakeable g x = true.
+Proof. intros g x H. unfold wakeable. rewrite H. reflexivity. Qed.
+
+Lemma wakeable_CI : forall g, wakeable g CI = readable g CI.
+Proof. intros g. unfold wakeable. apply orb_false_r. Qed.
+
 Section Enabled.
 Variable early : bool.
 Variable absorb_n : nat.
 Variable no_limit : N.
-Variable react : nat -> list msg * bool.
+Variable react : nat -> list (chanid * msg) * bool.
 
 Lemma fin_some : forall g r k e, exists x, fin react g r k e = Some x.
 Proof. intros. unfold fin. destruct (ret react (g_evd g) r k) as [[p k'] e']. eauto. Qed.
@@ -61,7 +67,7 @@ Definition S_inv (s : sys) : Prop :=
 Section Shutdown.
 Variable absorb_n : nat.
 Variable no_limit : N.
-Variable react : nat -> list msg * bool.
+Variable react : nat -> list (chanid * msg) * bool.
 Variable ok : label -> bool.
 Variables smode emode : bool.
 
@@ -112,7 +118,7 @@ Proof.
       intros Hw.
       inversion Hst; subst; clear Hst; unfold upc_ok in Hu; simpl in Hu; try contradiction;
         unfold sh_wait in Hw; simpl in Hw; try discriminate.
-      all: repeat match goal with y : chanid |- _ => destruct y | y : msg |- _ => destruct y end; simpl in Hu; try contradiction;
+      all: repeat match goal with y : chanid |- _ => destruct y | y : msg |- _ => destruct y | y : uop |- _ => destruct y end; simpl in Hu; try contradiction;
            try (destr_k k); simpl in Hu; try contradiction; kill_ret; simpl in Hw; try discriminate;
            try (match goal with b : bool |- _ => match b with smode => fail 1 | emode => fail 1 | _ => destruct b; simpl in Hw; try discriminate end end).
       all: first
@@ -147,6 +153,12 @@ Proof.
       try (destruct Sv' as [A | B]; [left; exact A | simpl in B; try discriminate]; fail).
     all: try (destruct x; simpl in Hi; try contradiction).
     all: try (destruct Sv' as [A | B]; [left; simpl; exact A | simpl in B; try discriminate]; fail).
+    + (* the thread appends to its own queue *)
+      destruct Sv' as [A | B]; [|simpl in B; discriminate]. left. unfold enq. simpl. apply in_or_app. left. exact A.
+    + (* a signal: the queue is unchanged *)
+      destruct Sv' as [A | B]; [|simpl in B; discriminate]. left.
+      match goal with Hs : signal _ _ _ = _ |- _ => apply signal_frame in Hs; destruct Hs as (_&_&_&_&_&_&_&_&F9&_) end.
+      destruct (F9 CI) as (Q & _). simpl in Q. rewrite Q. exact A.
     + (* a signal: the queue is unchanged *)
       destruct Sv' as [A | B]; [|simpl in B; discriminate]. left.
       match goal with Hs : signal _ _ _ = _ |- _ => apply signal_frame in Hs; destruct Hs as (_&_&_&_&_&_&_&_&F9&_) end.
@@ -193,7 +205,7 @@ Qed.
 Section WcBound.
 Variable early : bool.
 Variable absorb_n : nat.
-Variable react : nat -> list msg * bool.
+Variable react : nat -> list (chanid * msg) * bool.
 Variable ok : label -> bool.
 Variables smode emode : bool.
 Notation NL := 4294967295%N.
@@ -211,7 +223,9 @@ Proof.
   intros c g l g' l' ev HS B. inversion HS; subst; clear HS; auto;
     try (eapply signal_wcb; eauto; fail);
     intros c'; specialize (B c');
-    try (destruct x, c'; simpl in *; try exact B; lia).
+    try (destruct x, c'; simpl in *; try exact B; lia);
+    try (unfold park_flags; repeat match goal with y : chanid |- _ => destruct y end; try destruct (u_reg (g_usr g)); simpl in *; exact B);
+    try (match goal with Hu : user_step _ _ = _ |- _ => apply user_step_frame in Hu; destruct Hu as [? ->] end; destruct c'; simpl in *; exact B).
   - pose proof (absorb_frame absorb_n x g) as F. simpl in F. destruct F as (_&_&_&_&_&_&_&_&F&_).
     destruct (F c') as (_ & _ & _ & Q). rewrite Q. exact B.
   - pose proof (alloc_frame g) as F. simpl in F. destruct F as (_&_&_&_&_&_&F).
@@ -245,7 +259,7 @@ Section Multi.
 Variable early : bool.
 Variable absorb_n : nat.
 Variable no_limit : N.
-Variable react : nat -> list msg * bool.
+Variable react : nat -> list (chanid * msg) * bool.
 Variable ok : label -> bool.
 Variables smode emode : bool.
 
@@ -301,7 +315,7 @@ Definition J_inv (s : sys) : Prop := l_pc (s_l s 0) = PJoinWait -> g_running (s_
 Section Theorems.
 Variable absorb_n : nat.
 Variable no_limit : N.
-Variable react : nat -> list msg * bool.
+Variable react : nat -> list (chanid * msg) * bool.
 Hypothesis Hnl : (0 < no_limit)%N.
 Variable ok : label -> bool.
 Variables smode emode : bool.
@@ -333,7 +347,7 @@ Lemma ipc_readable_unblocked : forall g l, ipc_ok l -> readable g CI = true -> b
 Proof.
   intros g [p k] Hi Hr. unfold ipc_ok in Hi. unfold blocked. simpl in *.
   destruct p; try reflexivity; try contradiction;
-    try (destruct c); try (rewrite Hr; reflexivity); try (destruct k as [|[] [|? ?]]; contradiction).
+    try (destruct c); try (rewrite ?wakeable_CI, Hr; reflexivity); try (destruct k as [|[] [|? ?]]; contradiction).
 Qed.
 
 Lemma pend_i_unblocked : forall g l, is_pend_i (l_pc l) = true -> blocked g l = false.
@@ -394,7 +408,7 @@ Theorem owner_never_stuck : forall s w,
 Proof.
   intros s w Rs Hp Hq.
   destruct (no_lost_wakeup_owner s w Rs Hp Hq) as [A | [[t B] | [C D]]].
-  - left. apply user_enabled. unfold blocked. rewrite Hp. rewrite A. reflexivity.
+  - left. apply user_enabled. unfold blocked. rewrite Hp. rewrite (readable_wakeable _ _ A). reflexivity.
   - right. left. destruct (user_enabled s t) as [x Hx]; [unfold blocked; rewrite B; reflexivity | eauto].
   - right. right. split; auto. apply int_enabled; auto. unfold blocked. rewrite D. reflexivity.
 Qed.
@@ -418,7 +432,7 @@ Proof.
     unfold J_inv in *. simpl. unfold upd. destruct (Nat.eqb_spec 0 t) as [<- | Ht].
     + intros Hq. inversion Hst; subst; clear Hst; simpl in Hq; try discriminate; auto;
         unfold upc_ok in Hu; simpl in Hu;
-        repeat match goal with y : chanid |- _ => destruct y | y : msg |- _ => destruct y end; simpl in Hu; try contradiction;
+        repeat match goal with y : chanid |- _ => destruct y | y : msg |- _ => destruct y | y : uop |- _ => destruct y end; simpl in Hu; try contradiction;
         destruct k as [|[] [|? ?]]; simpl in Hu; try contradiction;
         repeat match goal with
         | Hr : ret _ _ _ _ = _ |- _ => simpl in Hr
@@ -517,7 +531,7 @@ End Theorems.
 Section Final.
 Variable absorb_n : nat.
 Variable no_limit : N.
-Variable react : nat -> list msg * bool.
+Variable react : nat -> list (chanid * msg) * bool.
 
 (* StartInternalThread as repaired *)
 Notation sys_step := (sys_step false absorb_n no_limit react).
@@ -542,7 +556,7 @@ Section Runs.
 Variable early : bool.
 Variable absorb_n : nat.
 Variable no_limit : N.
-Variable react : nat -> list msg * bool.
+Variable react : nat -> list (chanid * msg) * bool.
 
 Notation sys_step := (sys_step early absorb_n no_limit react).
 Notation reachable_if := (reachable_if early absorb_n no_limit react).
@@ -603,7 +617,7 @@ Qed.
 
 (* ---------- non-vacuity: reachable states that satisfy the premises of the theorems ---------- *)
 
-Definition react0 : nat -> list msg * bool := fun _ => ([], false).
+Definition react0 : nat -> list (chanid * msg) * bool := fun _ => ([], false).
 
 Definition start_labels : list label :=
   [LBegin 0 OStart; LStep (U 0) CRun; LStep (U 0) CRun; LStep (U 0) CRun; LStep (U 0) CRun; LStep (U 0) CRun].
@@ -708,3 +722,104 @@ Proof.
   intros n nl. exists (sys0 true false). split; [apply reach_init|]. intros [t|] []; reflexivity.
 Qed.
 
+
+(* ---------- the owner's user-registered socket set ---------- *)
+
+Section UserSocket.
+Variable absorb_n : nat.
+Variable no_limit : N.
+Variable react : nat -> list (chanid * msg) * bool.
+
+Notation sys_step := (sys_step false absorb_n no_limit react).
+
+(* a blocked owner is woken by its registered user socket becoming ready-for-read *)
+Theorem user_socket_wakes_owner : forall s w,
+  g_sockets (s_g s) = true -> l_pc (s_l s 0) = PRecvPark CO w ->
+  u_reg (g_usr (s_g s)) = true -> 0 < u_bytes (g_usr (s_g s)) ->
+  exists x, sys_step s (LStep (U 0) CRun) = Some x.
+Proof.
+  intros s w Hs Hp Hr Hb. simpl.
+  assert (Hbl : blocked (s_g s) (s_l s 0) = false).
+  { unfold blocked. rewrite Hp. unfold wakeable, uready. rewrite Hs, Hr. apply Nat.ltb_lt in Hb. rewrite Hb.
+    simpl. rewrite orb_true_r. reflexivity. }
+  destruct (step_enabled false absorb_n no_limit react _ _ Hbl) as [[[g' l'] e] Hx]. rewrite Hx. eauto.
+Qed.
+
+Lemma next_reply_no_ret : forall evd rs q k p k' e' x, next_reply evd rs q k = (p, k', e') -> ~ In (ERet x) e'.
+Proof. intros evd rs q k p k' e' x H. unfold next_reply in H. destruct rs as [|[c0 m0] rest]; inv H; simpl; tauto. Qed.
+
+Lemma ret_emits : forall evd k r p k' e' x, ret react evd r k = (p, k', e') -> In (ERet x) e' -> x = r \/ x = RVoid.
+Proof.
+  intros evd k. induction k as [|f k IH]; intros r p k' e' x H Hin; simpl in H.
+  - inv H. simpl in Hin. destruct Hin as [E | []]. inv E. auto.
+  - destruct f.
+    + destruct wait; [inv H; simpl in Hin; tauto|]. right. destruct (IH _ _ _ _ _ H Hin); auto.
+    + right. destruct (IH _ _ _ _ _ H Hin); auto.
+    + exfalso. unfold dispatch in H. destruct r as [ | [y|] n | | | | | | ]; try (inv H; simpl in Hin; intuition discriminate).
+      destruct (next_reply evd (fst (react y)) (snd (react y)) k) as [[p1 k1] e1] eqn:En. inv H.
+      simpl in Hin. destruct Hin as [E | Hin]; [discriminate|]. eapply next_reply_no_ret; eauto.
+    + exfalso. eapply next_reply_no_ret; eauto.
+Qed.
+
+Lemma signal_no_ret : forall nl c g g' e x, signal nl c g = (g', e) -> ~ In (ERet x) e.
+Proof.
+  intros nl c g g' e x H. unfold signal in H.
+  repeat match type of H with context [if ?b then _ else _] => destruct b | context [match ?y with CI => _ | CO => _ end] => destruct y end;
+    inv H; simpl; intuition discriminate.
+Qed.
+
+(* B_IO_READY is truthful: a call returns it only when the registered user socket is ready-for-read and the signal
+   socket is not, and IsOwnerThreadSocketReady() then says yes *)
+Theorem io_ready_is_truthful : forall s t c s' ev,
+  sys_step s (LStep (U t) c) = Some (s', ev) -> In (ERet RIoReady) ev ->
+  uready (s_g s) = true /\ readable (s_g s) CO = false /\ u_flag (g_usr (s_g s')) = true.
+Proof.
+  intros s t c s' ev H Hin. simpl in H.
+  destruct (step false absorb_n no_limit react c (s_g s) (s_l s t)) as [[[g' l'] e']|] eqn:Hst; [|discriminate]. inv H.
+  apply step_spec in Hst. simpl.
+  inversion Hst; subst; clear Hst;
+    try (simpl in Hin; intuition discriminate; fail);
+    try (exfalso; apply in_app_or in Hin; destruct Hin as [Hin | Hin];
+         [ first [ eapply signal_no_ret; eassumption | simpl in Hin; intuition discriminate ]
+         | simpl in Hin; intuition discriminate ]; fail);
+    try (apply in_app_or in Hin; destruct Hin as [Hin | Hin];
+         [ exfalso; first [ eapply signal_no_ret; eassumption | simpl in Hin; intuition discriminate ]
+         | match goal with Hr : ret _ _ _ _ = _ |- _ => destruct (ret_emits _ _ _ _ _ _ _ Hr Hin) as [E | E]; try discriminate end ]).
+  - (* woken by the user socket *)
+    destruct x.
+    + exfalso. match goal with Hw : wakeable _ CI = true, Hr : readable _ CI = false |- _ => rewrite wakeable_CI in Hw; congruence end.
+    + match goal with Hw : wakeable _ CO = true, Hr : readable _ CO = false |- _ =>
+        unfold wakeable in Hw; rewrite Hr in Hw; simpl in Hw; split; [exact Hw | split; [exact Hr|]];
+        unfold uready in Hw; apply andb_true_iff in Hw; destruct Hw as [Hw1 Hw2]; apply andb_true_iff in Hw1; destruct Hw1 as [_ Hreg];
+        unfold park_flags; rewrite Hreg; simpl; exact Hw2 end.
+  - (* an operation on the user socket never returns it *)
+    exfalso. subst r. match goal with Hu : user_step ?u _ = _ |- _ => destruct u; simpl in Hu;
+      repeat match type of Hu with context [if ?b then _ else _] => destruct b end; inv Hu end.
+Qed.
+
+End UserSocket.
+
+(* the owner blocked with its user socket registered; another thread makes it ready: the owner can return B_IO_READY *)
+Example ex_user_socket : forall n nl, exists s, reachable_if false n nl react0 any_label true false s /\
+  l_pc (s_l s 0) = PRecvPark CO WNever /\ uready (s_g s) = true /\ readable (s_g s) CO = false.
+Proof.
+  intros n nl.
+  by_run (start_labels ++ [LBegin 0 (OUser UReg); LStep (U 0) CRun;
+                           LBegin 0 (ORecv WNever); LStep (U 0) CRun; LStep (U 0) CRun; LStep (U 0) CRun;
+                           LBegin 1 (OUser UPing); LStep (U 1) CRun]) true false.
+  repeat split; reflexivity.
+Qed.
+
+(* a reaction that sends further work to the internal thread itself: having taken Message 5 from its queue, the thread
+   has appended Message 105 to that (now empty) queue and owes itself the signal *)
+Definition react_self : nat -> list (chanid * msg) * bool := fun x => ([(CI, Some (x + 100))], false).
+
+Example ex_self_send : forall n nl, exists s, reachable_if false n nl react_self any_label true false s /\
+  g_ist (s_g s) = ILive /\ l_pc (g_il (s_g s)) = PSendSig CI true /\ c_q (g_ci (s_g s)) = [Some 105] /\
+  c_rcvd (g_ci (s_g s)) = [Some 5].
+Proof.
+  intros n nl.
+  by_run ([LBegin 0 (OSend CI (Some 5)); LStep (U 0) CRun; LStep (U 0) CRun] ++ start_labels ++
+          [LStep I CRun; LStep I CRun; LStep I CRun; LStep I CRun; LStep I CRun; LStep I CRun; LStep I CRun; LStep I CRun]) true false.
+  repeat split; reflexivity.
+Qed.
